@@ -56,7 +56,10 @@ SPEC = {
             "update in six with a storage failure at its 1st-4th write (then often retried), one in ten from the "
             "malformed stream (empty ids, bad role, count <= 0, end <= start, mismatching bundle group), every eighth "
             "history with storage corruption (rule under a foreign key, junk value, invalid stored rule, deleted key) "
-            "followed by restart; per stream two bulk histories (15 in the thorough tier) that bring the number of persisted "
+            "followed by restart; one step in ten is a pair of updates overlapping in time (`park u1`: u1 is held inside its "
+            "first storage write by the kv gate; `during u2`: u2 is issued meanwhile and must be observed blocked - probed "
+            "with TryLock on the manager's mutex, then really started; `release`: both finish, all observables are "
+            "reported); per stream two bulk histories (15 in the thorough tier) that bring the number of persisted "
             "rules to 99/100/101/199/200/201/~230 (the 100-key pages of LoadRangeByPrefix) by batches and single "
             "SetRule calls over 60 extra rule ids and restart twice at each size; after every op all observables are reported (GetAllRules, GetRuleGroups, "
             "GetRulesByKey on 9 keys, GetRulesForApplyRegion and GetSplitKeys on 64 ranges, raw storage, a second "
@@ -93,7 +96,9 @@ SPEC = {
     "assumptions": [
         "names are ranks in sorted universes (the harness checks rank order = byte order); prefix and regexp matches are "
         "passed to the model as the set of matching ranks, checked by the harness",
-        "one update = one atomic step (the manager's mutex; extracted lock structure)",
+        "one update = one atomic step: the manager's mutex is held from before the served configuration is read until "
+        "after commit, storage writes included (rules_lock_facts, re-extracted on every run; and observed on gated "
+        "pairs of overlapping updates: the second is blocked while the first is inside its storage write)",
         "the order in which savePatch issues its writes (Go map order) is reported by the harness",
         "keyType is raw (no table/txn key encoding check); no store informer",
     ],
